@@ -562,6 +562,32 @@ def check_latlon(case, rec):
                 )
                 continue
         raise Violation(f"{api} (great-circle): {msg}", tags=dict(tags, kind="mismatch", api=api))
+    # default bins in another geographic unit: the same estimate, bin centres in that unit (geo_scale only names the unit of the bins)
+    if not info["nan_dist"] and n >= 3:
+        g = [gs.KM_SCALE, gs.DEGREE_SCALE, 2.5][(n + len(edges)) % 3]
+        with common.quiet():
+            r0 = lib(gs.vario_estimate, pos, fields, estimator=_spell(est, case), latlon=True, return_counts=True, _what="vario_estimate(default bins, radians)", _tags=tags)
+            r1 = lib(gs.vario_estimate, pos, fields, estimator=_spell(est, case), latlon=True, geo_scale=g, return_counts=True, _what="vario_estimate(default bins, geo_scale)", _tags=tags)
+        c0, c1 = np.asarray(r0[0], dtype=float), np.asarray(r1[0], dtype=float)
+        if c0.size >= 1 and c0[-1] > 0:
+            e0 = [0.0] + [float(2 * c0[0])] if c0.size == 1 else [0.0] + list(np.cumsum(np.full(c0.size, 2 * c0[0])))
+            _o_v, _o_c, inf0 = ov.unstructured(fields, [float(e) for e in e0], pos, est, "haversine", exact_edges=False)
+            arc = min(3.0 * float(e0[-1]), math.pi)  # diameter of the points' box as an arc (the cut-off is one third of it)
+            if inf0["near_edge"]:
+                rec.exclude("float_tie")
+            elif 4e-16 / math.sqrt(max(1.0 - math.sin(arc / 2.0) ** 2, 1e-32)) > 1e-13 or arc < 1e-7:
+                # chord -> arc is ill-conditioned when the box diameter comes close to the diameter of the sphere
+                rec.exclude("default_bins_box_near_antipodal")
+            else:
+                rec.label("default_bins_geo_scale")
+                # the box diameter is a difference of sphere coordinates of size 1: relative rounding eps / arc for small boxes
+                same_c = c1.shape == c0.shape and bool(np.allclose(c1, g * c0, rtol=1e-12 + 4e-15 / arc, atol=0))
+                same_n = np.shape(r1[2]) == np.shape(r0[2]) and bool(np.array_equal(np.asarray(r1[2]), np.asarray(r0[2])))
+                same_v = np.shape(r1[1]) == np.shape(r0[1]) and bool(np.allclose(np.asarray(r1[1], dtype=float), np.asarray(r0[1], dtype=float), rtol=1e-10, atol=0, equal_nan=True))
+                require(same_c and same_n and same_v,
+                        f"default bins with geo_scale={g!r}: centres {c1.tolist()} / counts {np.asarray(r1[2]).tolist()} are not the radian result "
+                        f"(centres {c0.tolist()} x geo_scale, counts {np.asarray(r0[2]).tolist()})",
+                        dict(tags, kind="default_bins_unit"))
     _nontrivial(rec, case, n, info, False)
 
 
